@@ -187,4 +187,11 @@ def cases(tier, seed=0):
                         continue
                     for semi in rotations(kind, 2):
                         out.append(mi_case(kind, Dx, Dy, Rc, Rx, semi=semi, timeout=1800))
+    for kind in ("full", "diag", "identity", "identitydiag", "nncontrol"):
+        for var in (("viaL",), ("upd",)):
+            if kind == "nncontrol" and var == ("viaL",):
+                continue
+            out.append(mi_case(kind, 1, 1, 1, 1, semi=var))
+            if not kind.startswith("identity"):
+                out.append(mi_case(kind, 1, 2, 1, 1, semi=var))
     return out
